@@ -279,8 +279,8 @@ class MinFlowDecompCycles(walkmodel.AbstractWalkModelDiGraph):
         if self._source_flow is None:
             self._source_flow = 0
             for v in self.G.nodes():
-                out_flow = sum(data.get(self.flow_attr, 0) for _, _, data in self.G.out_edges(v, data=True))
-                in_flow  = sum(data.get(self.flow_attr, 0) for _, _, data in self.G.in_edges(v, data=True))
+                out_flow = sum(gu.plain_number(data.get(self.flow_attr, 0)) for _, _, data in self.G.out_edges(v, data=True))
+                in_flow  = sum(gu.plain_number(data.get(self.flow_attr, 0)) for _, _, data in self.G.in_edges(v, data=True))
                 if out_flow > in_flow:
                     self._source_flow = self._source_flow + (out_flow - in_flow)
             utils.logger.debug(f"{__name__}: source_flow = {self._source_flow}")
